@@ -567,6 +567,8 @@ impl<'w, 'r, 'gc> Cb<'w, 'r, 'gc> {
                 let converted = std::mem::discriminant(&cany) != std::mem::discriminant(&access::canon(cany));
                 if converted {
                     self.w.stats.flag("C19.converted-edge-stored");
+                }
+                if *conv != Conv::None {
                     self.w.stats.cell(format!("conv|{conv:?}|{}", phase_name(self.phase)));
                 }
                 match hany {
@@ -647,10 +649,17 @@ impl<'w, 'r, 'gc> Cb<'w, 'r, 'gc> {
                     }
                 }
             }
-            Op::LinkWeak { holder, slot, child, route } => {
+            Op::LinkWeak { holder, slot, child, route, conv } => {
                 let (Some(hany), Some(cany)) = (self.holder_any(*holder), self.map.get(child).copied()) else { return self.skip() };
                 let slot = *slot as usize;
-                let wk = cany.downgrade();
+                let (wk, werr) = access::convert_weak(cany, *conv);
+                if let Some(e) = werr {
+                    self.viol("C19.ptr-eq", format!("converting the weak pointer to {child}: {e}"));
+                    return;
+                }
+                if *conv != Conv::None {
+                    self.w.stats.cell(format!("wconv|{conv:?}|{}", phase_name(self.phase)));
+                }
                 match hany {
                     None => {
                         if slot >= ROOT_WEAK {
@@ -837,7 +846,78 @@ impl<'w, 'r, 'gc> Cb<'w, 'r, 'gc> {
                 self.w.stats.cell(format!("convert-chain|{}", chain.len()));
             }
             Op::Zst { id, a: al, sized, via_static } => self.op_zst(*id, *al, *sized, *via_static),
+            Op::HandleIn { h, op } => self.op_handle_in(*h, *op),
         }
+    }
+
+    /// A handle cloned or dropped inside the callback. Nothing may be destructed or released by
+    /// it (C03: the enclosing context is a callback); a dropped last handle makes its object
+    /// collectable like an unlink does.
+    fn op_handle_in(&mut self, h: Hid, op: HandleOp) {
+        if !self.w.handles.contains_key(&h) {
+            return self.skip();
+        }
+        let arena = self.w.handles[&h].arena;
+        let arena_alive = self.w.sh.arena_alive(arena);
+        if arena != self.a && arena_alive {
+            // a handle of another live arena: operating on it is an act on *that* arena (its slot
+            // table, its reachability), which the isolation frame of C20 attributes by event
+            return self.skip();
+        }
+        self.w.stats.handle_ops += 1;
+        if arena == self.a && self.phase != Phase::Sleeping {
+            self.w.stats.flag("C14.handle-op-mid-cycle");
+        }
+        self.w.stats.cell(format!("handle-in|{}|{}", if matches!(op, HandleOp::Drop) { "drop" } else { "clone" }, if arena == self.a { "own" } else { "dead" }));
+        match op {
+            HandleOp::Clone { new } => {
+                if self.w.handles.contains_key(&new) {
+                    return self.skip();
+                }
+                let hs = &self.w.handles[&h];
+                let r = std::panic::catch_unwind(std::panic::AssertUnwindSafe(|| {
+                    let _t = seam::track();
+                    hs.real.clone_handle()
+                }));
+                match r {
+                    Ok(real) => {
+                        let (group, obj) = (hs.group, hs.obj);
+                        self.w.handles.insert(new, HandleState { real, group, arena, obj });
+                        self.w.sh.handles.insert(new, group);
+                        self.w.sh.groups.get_mut(&group).unwrap().count += 1;
+                        self.w.sh.next_hid = self.w.sh.next_hid.max(new + 1);
+                    }
+                    Err(p) => {
+                        let o = if arena_alive { "C14.panic" } else { "C14.afterlife" };
+                        let m = panic_message(&p);
+                        self.viol(o, format!("DynamicRoot::clone inside a callback panicked: {m}"));
+                    }
+                }
+            }
+            HandleOp::Drop => {
+                let hs = self.w.handles.remove(&h).unwrap();
+                let group = hs.group;
+                let r = std::panic::catch_unwind(std::panic::AssertUnwindSafe(move || {
+                    let _t = seam::track();
+                    drop(hs.real)
+                }));
+                if let Err(p) = r {
+                    let o = if arena_alive { "C14.panic" } else { "C14.afterlife" };
+                    let m = panic_message(&p);
+                    self.viol(o, format!("DynamicRoot::drop inside a callback panicked: {m}"));
+                }
+                self.w.sh.handles.remove(&h);
+                self.w.sh.dec_group(group);
+                if arena_alive {
+                    self.w.rt[arena as usize].clean_since_wake = false;
+                    self.w.rt[arena as usize].dead_set = None;
+                }
+                if arena == self.a {
+                    self.note_mutation();
+                }
+            }
+        }
+        self.rep.only_barriers = false;
     }
 
     fn alloc(&mut self, id: Id, kind: Kind) {
